@@ -92,7 +92,9 @@ fn show_main(env: &mut VEnv, args: Vec<Field>) -> BuiltinFuture<'_> {
     })
 }
 
-async fn slurp_all(env: &mut VEnv) -> String {
+/// Reads descriptor 0 to its end.  `latin1`: one character per byte (the
+/// script need not be UTF-8); otherwise decoded as UTF-8.
+async fn slurp_all(env: &mut VEnv, latin1: bool) -> String {
     let mut all = vec![];
     let mut b = [0u8; 1];
     loop {
@@ -101,14 +103,18 @@ async fn slurp_all(env: &mut VEnv) -> String {
             Ok(_) => all.push(b[0]),
         }
     }
-    String::from_utf8_lossy(&all).into_owned()
+    if latin1 {
+        all.iter().map(|b| *b as char).collect()
+    } else {
+        String::from_utf8_lossy(&all).into_owned()
+    }
 }
 
 fn slurp_main(env: &mut VEnv, _args: Vec<Field>) -> BuiltinFuture<'_> {
     Box::pin(async move {
         let off = stdin_consumed(env);
         let st = env.exit_status.0;
-        let s = slurp_all(env).await;
+        let s = slurp_all(env, true).await;
         EVS.with(|e| e.borrow_mut().push(Ev { kind: "slurp", args: vec![s], status: st, off }));
         ExitStatus::SUCCESS.into()
     })
@@ -117,7 +123,7 @@ fn slurp_main(env: &mut VEnv, _args: Vec<Field>) -> BuiltinFuture<'_> {
 fn hdoc_main(env: &mut VEnv, _args: Vec<Field>) -> BuiltinFuture<'_> {
     Box::pin(async move {
         let st = env.exit_status.0;
-        let s = slurp_all(env).await;
+        let s = slurp_all(env, false).await;
         EVS.with(|e| e.borrow_mut().push(Ev { kind: "hdoc", args: vec![s], status: st, off: 0 }));
         ExitStatus::SUCCESS.into()
     })
@@ -303,10 +309,11 @@ enum Cmd {
     Status(u64),
     Probe(Vec<String>),
     Show(String),
-    Read(bool, String),
+    Read(bool, u8, String),
     Slurp,
     Here(String),
     Alias(String, String),
+    Unalias(String),
     Portable(bool),
     Exit(Option<u64>),
     Seq(Box<Cmd>, Box<Cmd>),
@@ -327,10 +334,11 @@ impl Cmd {
                 format!("(CProbe {})", coq::list(&v))
             }
             Cmd::Show(v) => format!("(CShow {})", coq::s(v)),
-            Cmd::Read(r, v) => format!("(CRead {} {})", coq::b(*r), coq::s(v)),
+            Cmd::Read(r, d, v) => format!("(CRead {} {} {})", coq::b(*r), coq::n(*d as u64), coq::s(v)),
             Cmd::Slurp => "CSlurp".into(),
             Cmd::Here(c) => format!("(CHere {})", coq::s(c)),
             Cmd::Alias(n, v) => format!("(CAlias {} {})", coq::s(n), coq::s(v)),
+            Cmd::Unalias(n) => format!("(CUnalias {})", coq::s(n)),
             Cmd::Portable(b) => format!("(CPortable {})", coq::b(*b)),
             Cmd::Exit(n) => format!("(CExit {})", coq::opt(n.map(coq::n))),
             Cmd::Seq(a, b) => format!("(CSeq {} {})", a.coq(), b.coq()),
@@ -344,7 +352,7 @@ impl Cmd {
     /// alias definitions and option changes anywhere inside
     fn atoms(&self, out: &mut Vec<Cmd>) {
         match self {
-            Cmd::Alias(..) | Cmd::Portable(_) => out.push(self.clone()),
+            Cmd::Alias(..) | Cmd::Unalias(_) | Cmd::Portable(_) => out.push(self.clone()),
             Cmd::Seq(a, b) | Cmd::And(a, b) | Cmd::Or(a, b) => {
                 a.atoms(out);
                 b.atoms(out);
@@ -358,6 +366,35 @@ impl Cmd {
             _ => {}
         }
     }
+    fn delims(&self, out: &mut Vec<u8>) {
+        match self {
+            Cmd::Read(_, d, _) => {
+                if *d != b'\n' && !out.contains(d) {
+                    out.push(*d);
+                }
+            }
+            Cmd::Seq(a, b) | Cmd::And(a, b) | Cmd::Or(a, b) => {
+                a.delims(out);
+                b.delims(out);
+            }
+            Cmd::Not(a) | Cmd::Sub(a) => a.delims(out),
+            Cmd::If(c, t, e) => {
+                c.delims(out);
+                t.delims(out);
+                e.delims(out);
+            }
+            _ => {}
+        }
+    }
+    fn reads_delim(&self) -> bool {
+        match self {
+            Cmd::Read(_, d, _) => *d != b'\n',
+            Cmd::Seq(a, b) | Cmd::And(a, b) | Cmd::Or(a, b) => a.reads_delim() || b.reads_delim(),
+            Cmd::Not(a) | Cmd::Sub(a) => a.reads_delim(),
+            Cmd::If(c, t, e) => c.reads_delim() || t.reads_delim() || e.reads_delim(),
+            _ => false,
+        }
+    }
     fn reads_input(&self) -> bool {
         match self {
             Cmd::Read(..) | Cmd::Slurp => true,
@@ -369,11 +406,12 @@ impl Cmd {
     }
 }
 
-fn text_literal(t: &ast::Text) -> Option<String> {
+fn text_literal(t: &ast::Text, escapes: bool) -> Option<String> {
     let mut s = String::new();
     for u in &t.0 {
         match u {
             ast::TextUnit::Literal(c) => s.push(*c),
+            ast::TextUnit::Backslashed(c) if escapes => s.push(*c),
             _ => return None,
         }
     }
@@ -384,9 +422,10 @@ fn word_literal(w: &ast::Word) -> Option<String> {
     let mut s = String::new();
     for u in &w.units {
         match u {
-            ast::WordUnit::Unquoted(ast::TextUnit::Literal(c)) => s.push(*c),
+            ast::WordUnit::Unquoted(ast::TextUnit::Literal(c))
+            | ast::WordUnit::Unquoted(ast::TextUnit::Backslashed(c)) => s.push(*c),
             ast::WordUnit::SingleQuote(q) => s.push_str(q),
-            ast::WordUnit::DoubleQuote(t) => s.push_str(&text_literal(t)?),
+            ast::WordUnit::DoubleQuote(t) => s.push_str(&text_literal(t, true)?),
             _ => return None,
         }
     }
@@ -422,7 +461,7 @@ fn tr_simple(c: &ast::SimpleCommand) -> Option<Cmd> {
             return None;
         }
         return match &r.body {
-            ast::RedirBody::HereDoc(h) => Some(Cmd::Here(text_literal(h.content.get()?)?)),
+            ast::RedirBody::HereDoc(h) => Some(Cmd::Here(text_literal(h.content.get()?, false)?)),
             _ => None,
         };
     }
@@ -433,15 +472,42 @@ fn tr_simple(c: &ast::SimpleCommand) -> Option<Cmd> {
     match (name, args) {
         ("probe", a) => Some(Cmd::Probe(a.to_vec())),
         ("show", [v]) => Some(Cmd::Show(v.clone())),
-        ("read", [r, v]) if r == "-r" => Some(Cmd::Read(true, v.clone())),
-        ("read", [v]) if !v.starts_with('-') => Some(Cmd::Read(false, v.clone())),
+        ("read", a) => {
+            let mut raw = false;
+            let mut delim = b'\n';
+            let mut i = 0;
+            while i < a.len() && a[i].starts_with('-') {
+                match a[i].as_str() {
+                    "-r" => raw = true,
+                    "-d" => {
+                        i += 1;
+                        let d = a.get(i)?.as_bytes();
+                        if d.len() != 1 || d[0] == 0 || d[0] >= 128 {
+                            return None;
+                        }
+                        delim = d[0];
+                    }
+                    _ => return None,
+                }
+                i += 1;
+            }
+            match &a[i..] {
+                [v] if !v.is_empty() && v.chars().all(|c| c.is_ascii_alphanumeric()) => {
+                    Some(Cmd::Read(raw, delim, v.clone()))
+                }
+                _ => None,
+            }
+        }
         ("slurp", []) => Some(Cmd::Slurp),
         ("alias", [d]) => {
             let (n, v) = d.split_once('=')?;
-            if n.is_empty() || !n.chars().all(|c| c.is_ascii_alphanumeric()) || v.contains('\n') {
+            if n.is_empty() || !n.chars().all(|c| c.is_ascii_alphanumeric()) {
                 return None;
             }
             Some(Cmd::Alias(n.into(), v.into()))
+        }
+        ("unalias", [n]) if !n.is_empty() && n.chars().all(|c| c.is_ascii_alphanumeric()) => {
+            Some(Cmd::Unalias(n.clone()))
         }
         ("set", [o, p]) if p == "portable" && (o == "-o" || o == "+o") => Some(Cmd::Portable(o == "-o")),
         ("exit", []) => Some(Cmd::Exit(None)),
@@ -570,6 +636,9 @@ impl PState {
             Cmd::Alias(n, v) => {
                 s.aliases.insert(n.clone(), v.clone());
             }
+            Cmd::Unalias(n) => {
+                s.aliases.remove(n);
+            }
             Cmd::Portable(b) => s.portable = *b,
             _ => {}
         }
@@ -579,21 +648,18 @@ impl PState {
 
 #[derive(Clone, Debug, PartialEq, Eq)]
 enum PRes {
-    Complete(Cmd),
+    /// the command, and `Lexer::pending()` afterwards (text left in the buffer)
+    Complete(Cmd, bool),
     Error,
     End,
-    /// `command_line` returned a command but left text in the line buffer
-    /// (`Lexer::pending()`): the parser looked beyond the command line
-    Leftover,
 }
 
 impl PRes {
     fn coq(&self) -> String {
         match self {
-            PRes::Complete(c) => format!("(PComplete {})", c.coq()),
+            PRes::Complete(c, p) => format!("(PComplete {} {})", c.coq(), coq::b(*p)),
             PRes::Error => "PError".into(),
             PRes::End => "PEnd".into(),
-            PRes::Leftover => "PUnknown".into(),
         }
     }
 }
@@ -616,79 +682,176 @@ impl Input for CountingFeed {
     }
 }
 
-/// `command_line` in parser state `st` on the lines from `start`:
-/// (number of lines pulled, counting the end-of-input report; result).
-/// `None`: outside what the model covers.
-fn parse_at(st: &PState, lines: &[String], start: usize) -> Option<(usize, PRes)> {
-    use futures_util::FutureExt as _;
-    let mut env = Env::new_virtual();
+/// What FdReader2 makes of the bytes of one line.
+fn line_string(bytes: &[u8]) -> String {
+    String::from_utf8(bytes.to_vec()).unwrap_or_else(|e| String::from_utf8_lossy(&e.into_bytes()).into())
+}
+
+/// The lines of a script: cut after every newline byte, whatever the other
+/// bytes are.
+fn split_lines(script: &[u8]) -> Vec<Vec<u8>> {
+    script.split_inclusive(|b| *b == b'\n').map(|l| l.to_vec()).collect()
+}
+
+fn set_parser_state<S>(env: &mut Env<S>, st: &PState) {
+    env.aliases.clear();
     for (n, v) in &st.aliases {
         env.aliases.insert(HashEntry::new(n.clone(), v.clone(), false, Location::dummy("")));
     }
     env.options.set(ShOption::Portable, if st.portable { OptState::On } else { OptState::Off });
-    let mode = Mode::from(&env.options);
+}
+
+enum Session {
+    /// an earlier call of the sequence did not leave text pending in the buffer
+    NotReachable,
+    /// lines pulled since the flush (counting the end-of-input report) and the
+    /// result of the last call
+    Res(usize, PRes),
+}
+
+/// One lexer, not flushed, on the lines from `start`; `command_line` is called
+/// once per parser state of `sts` (aliases and mode set before each call, as
+/// read_eval_loop does).  `None`: outside what the model covers.
+fn parse_session(sts: &[&PState], lines: &[String], start: usize) -> Option<Session> {
+    use futures_util::FutureExt as _;
+    let mut env = Env::new_virtual();
     let pulled = Rc::new(Cell::new(0));
     let feed = CountingFeed { lines: lines[start..].to_vec(), pos: 0, pulled: Rc::clone(&pulled) };
     let ref_env = RefCell::new(&mut env);
     let mut lexer = Lexer::new(Box::new(feed));
-    lexer.set_mode(mode);
-    let result = Parser::config()
-        .aliases(&ref_env)
-        .declaration_utilities(&ref_env)
-        .input(&mut lexer)
-        .command_line()
-        .now_or_never()?;
-    let res = match result {
-        Ok(None) => PRes::End,
-        Ok(Some(list)) => {
-            let c = tr_list(&list)?;
-            if lexer.pending() { PRes::Leftover } else { PRes::Complete(c) }
+    for (j, st) in sts.iter().enumerate() {
+        let last = j + 1 == sts.len();
+        let mode = {
+            let env = &mut **ref_env.borrow_mut();
+            set_parser_state(env, st);
+            Mode::from(&env.options)
+        };
+        lexer.set_mode(mode);
+        let result = Parser::config()
+            .aliases(&ref_env)
+            .declaration_utilities(&ref_env)
+            .input(&mut lexer)
+            .command_line()
+            .now_or_never()?;
+        if !last {
+            match result {
+                Ok(Some(_)) if lexer.pending() => continue,
+                _ => return Some(Session::NotReachable),
+            }
         }
-        Err(e) => match e.cause {
-            ErrorCause::Syntax(_) => PRes::Error,
-            ErrorCause::Io(_) => return None,
-        },
-    };
-    Some((pulled.get(), res))
-}
-
-/// Lines of a script the way `str::split_inclusive('\n')` and the model see them.
-fn split_lines(s: &str) -> Vec<String> {
-    s.split_inclusive('\n').map(|l| l.to_string()).collect()
+        let res = match result {
+            Ok(None) => PRes::End,
+            Ok(Some(list)) => PRes::Complete(tr_list(&list)?, lexer.pending()),
+            Err(e) => match e.cause {
+                ErrorCause::Syntax(_) => PRes::Error,
+                ErrorCause::Io(_) => return None,
+            },
+        };
+        return Some(Session::Res(pulled.get(), res));
+    }
+    None
 }
 
 struct Table {
     states: Vec<PState>,
-    /// (state index, start line, lines taken, result)
-    entries: Vec<(usize, usize, usize, PRes)>,
+    /// (state indices of the calls, start byte, lines taken, result)
+    entries: Vec<(Vec<usize>, usize, usize, PRes)>,
 }
 
-fn build_table(script: &str) -> Option<Table> {
-    let lines = split_lines(script);
-    let mut states = vec![PState { aliases: BTreeMap::new(), portable: false }];
-    let mut entries = vec![];
-    let mut atoms: Vec<Cmd> = vec![];
-    let mut done = 0;
-    while done < states.len() {
-        if states.len() > 12 {
-            return None;
-        }
-        let st = states[done].clone();
-        for start in 0..=lines.len() {
-            let (k, r) = parse_at(&st, &lines, start)?;
-            if let PRes::Complete(c) = &r {
-                let mut found = vec![];
-                c.atoms(&mut found);
-                for a in found {
-                    if !atoms.contains(&a) {
-                        atoms.push(a);
+const MAX_STATES: usize = 12;
+const MAX_ENTRIES: usize = 1500;
+const MAX_CHAIN: usize = 5;
+
+/// `candidates`: the parser states the next call of the session can be made
+/// in (all of them for the first call; for a later call, what the command
+/// parsed by the previous call can turn its state into).
+fn explore(
+    states: &[PState],
+    candidates: &[usize],
+    lines: &[String],
+    start: usize,
+    chain: &mut Vec<usize>,
+    entries: &mut Vec<(Vec<usize>, usize, usize, PRes)>,
+    atoms: &mut Vec<Cmd>,
+) -> Option<()> {
+    for &si in candidates {
+        chain.push(si);
+        let sts: Vec<&PState> = chain.iter().map(|i| &states[*i]).collect();
+        match parse_session(&sts, lines, start)? {
+            Session::NotReachable => {}
+            Session::Res(k, r) => {
+                let mut pend = false;
+                let mut next: Vec<usize> = vec![si];
+                if let PRes::Complete(c, p) = &r {
+                    pend = *p;
+                    let mut found = vec![];
+                    c.atoms(&mut found);
+                    // states the command can leave: any of its alias/option changes applied or not
+                    let mut reach = vec![states[si].clone()];
+                    let mut i = 0;
+                    while i < reach.len() {
+                        for a in &found {
+                            let n = reach[i].apply(a);
+                            if !reach.contains(&n) {
+                                reach.push(n);
+                            }
+                        }
+                        i += 1;
+                    }
+                    next = reach.iter().filter_map(|st| states.iter().position(|x| x == st)).collect();
+                    for a in found {
+                        if !atoms.contains(&a) {
+                            atoms.push(a);
+                        }
                     }
                 }
+                entries.push((chain.clone(), start, k, r));
+                if entries.len() > MAX_ENTRIES {
+                    return None;
+                }
+                if pend {
+                    if chain.len() >= MAX_CHAIN {
+                        return None;
+                    }
+                    explore(states, &next, lines, start, chain, entries, atoms)?;
+                }
             }
-            entries.push((done, start, k, r));
         }
-        done += 1;
-        // close the set of states under every alias definition / option change seen so far
+        chain.pop();
+    }
+    Some(())
+}
+
+fn build_table(script: &[u8]) -> Option<Table> {
+    let mut states = vec![PState { aliases: BTreeMap::new(), portable: false }];
+    let mut atoms: Vec<Cmd> = vec![];
+    // delimiters of the `read -d` commands seen: a command can start right
+    // after such a byte (and after every newline, and at the beginning)
+    let mut delims: Vec<u8> = vec![];
+    loop {
+        let mut entries = vec![];
+        let mut new_delims = delims.clone();
+        for start in 0..=script.len() {
+            let ok = start == 0
+                || script[start - 1] == b'\n'
+                || delims.contains(&script[start - 1])
+                || start == script.len();
+            if !ok {
+                continue;
+            }
+            let lines: Vec<String> = split_lines(&script[start..]).iter().map(|l| line_string(l)).collect();
+            let first = entries.len();
+            let all: Vec<usize> = (0..states.len()).collect();
+            explore(&states, &all, &lines, 0, &mut vec![], &mut entries, &mut atoms)?;
+            for e in &mut entries[first..] {
+                e.1 = start;
+                if let PRes::Complete(c, _) = &e.3 {
+                    c.delims(&mut new_delims);
+                }
+            }
+        }
+        // close the set of states under every alias definition / option change seen
+        let before = states.len();
         let mut i = 0;
         while i < states.len() {
             for a in &atoms {
@@ -697,10 +860,16 @@ fn build_table(script: &str) -> Option<Table> {
                     states.push(n);
                 }
             }
+            if states.len() > MAX_STATES {
+                return None;
+            }
             i += 1;
         }
+        if states.len() == before && new_delims.len() == delims.len() {
+            return Some(Table { states, entries });
+        }
+        delims = new_delims;
     }
-    Some(Table { states, entries })
 }
 
 // ---------------------------------------------------------------------------
@@ -794,18 +963,28 @@ impl Feed {
 /// Runs one script under the given feeds and writes the case.  Returns false
 /// if the script is outside the model's domain (nothing written).
 fn emit(w: &mut CasesWriter, script: &str, data: &str, feeds: &[Feed], stream: &str, tags: &[&str]) -> bool {
-    if !script.bytes().chain(data.bytes()).all(|b| b > 0 && b < 128) {
-        w.count("skipped:non-ascii");
+    emit_bytes(w, script.as_bytes(), data, feeds, stream, tags)
+}
+
+/// The script as bytes (it need not be UTF-8; `-c` feeds are dropped then).
+fn emit_bytes(w: &mut CasesWriter, script: &[u8], data: &str, feeds: &[Feed], stream: &str, tags: &[&str]) -> bool {
+    if !script.iter().copied().chain(data.bytes()).all(|b| b > 0) || !data.is_ascii() {
+        w.count("skipped:nul-byte");
         return false;
     }
     let Some(table) = build_table(script) else {
         w.count("skipped:outside-model");
         return false;
     };
+    let utf8 = std::str::from_utf8(script).is_ok();
+    let shown: String = script.iter().map(|b| *b as char).collect();
     let mut runs = vec![];
     let mut runs_json = vec![];
     for f in feeds {
-        let o = run(script.as_bytes(), f, data.as_bytes());
+        if !utf8 && matches!(f, Feed::CmdString) {
+            continue;
+        }
+        let o = run(script, f, data.as_bytes());
         runs.push(format!("({}, {})", f.coq(), obs_coq(&o)));
         runs_json.push(format!("{{\"feed\":{},\"obs\":{}}}", json_str(&f.show()), obs_json(&o)));
         w.count(match f {
@@ -820,21 +999,25 @@ fn emit(w: &mut CasesWriter, script: &str, data: &str, feeds: &[Feed], stream: &
     let entries: Vec<String> = table
         .entries
         .iter()
-        .map(|(s, i, k, r)| format!("({}, {}, {}, {})", coq::nat(*s), coq::nat(*i), coq::nat(*k), r.coq()))
+        .map(|(s, i, k, r)| {
+            let sl: Vec<String> = s.iter().map(|x| x.to_string()).collect();
+            format!("([{}]%nat, {}, {}, {})", sl.join("; "), coq::nat(*i), coq::nat(*k), r.coq())
+        })
         .collect();
     let term = format!(
         "(mkCase {} {} {} {} {})",
-        coq::bytes(script.as_bytes()),
+        coq::bytes(script),
         coq::bytes(data.as_bytes()),
         coq::list(&states),
         coq::list(&entries),
         coq::list(&runs)
     );
     // classification of the input
-    let s0: Vec<&(usize, usize, usize, PRes)> = table.entries.iter().filter(|e| e.0 == 0).collect();
-    let multi = table.entries.iter().any(|e| matches!(e.3, PRes::Complete(_)) && e.2 >= 2);
-    let reads = table.entries.iter().any(|e| matches!(&e.3, PRes::Complete(c) if c.reads_input()));
-    let errs = s0.iter().any(|e| e.3 == PRes::Error);
+    let multi = table.entries.iter().any(|e| matches!(e.3, PRes::Complete(..)) && e.2 >= 2);
+    let reads = table.entries.iter().any(|e| matches!(&e.3, PRes::Complete(c, _) if c.reads_input()));
+    let delim = table.entries.iter().any(|e| matches!(&e.3, PRes::Complete(c, _) if c.reads_delim()));
+    let pend = table.entries.iter().any(|e| matches!(&e.3, PRes::Complete(_, true)));
+    let errs = table.entries.iter().any(|e| e.0 == [0] && e.3 == PRes::Error);
     let nstates = table.states.len();
     w.count(&format!("stream:{stream}"));
     w.count(&format!("lines:{}", split_lines(script).len().min(12)));
@@ -845,24 +1028,35 @@ fn emit(w: &mut CasesWriter, script: &str, data: &str, feeds: &[Feed], stream: &
     if reads {
         w.count("has:command-reading-stdin");
     }
+    if delim {
+        w.count("has:read-with-delimiter");
+    }
+    if pend {
+        w.count("has:text-pending-in-line-buffer");
+    }
     if errs {
         w.count("has:syntax-error-somewhere");
     }
-    if script.contains("<<") {
+    if !utf8 {
+        w.count("has:invalid-utf8");
+    } else if !script.is_ascii() {
+        w.count("has:multi-byte-characters");
+    }
+    if shown.contains("<<") {
         w.count("has:here-document");
     }
-    if !script.ends_with('\n') {
+    if script.last() != Some(&b'\n') {
         w.count("has:no-final-newline");
     }
     let json = format!(
-        "{{\"stream\":{},\"script\":{},\"data\":{},\"parser_states\":{},\"runs\":[{}]}}",
+        "{{\"stream\":{},\"script_latin1\":{},\"data\":{},\"parser_states\":{},\"runs\":[{}]}}",
         json_str(stream),
-        json_str(script),
+        json_str(&shown),
         json_str(data),
         nstates,
         runs_json.join(",")
     );
-    let key = if multi || reads || errs || nstates > 1 { Some(script.to_string()) } else { None };
+    let key = if multi || reads || errs || nstates > 1 || !script.is_ascii() { Some(shown) } else { None };
     w.push(&term, &json, tags, key);
     true
 }
@@ -1032,6 +1226,122 @@ impl Gen<'_> {
         }
         out
     }
+    /// byte-level script: command lines with bytes >= 0x80 (Latin-1 text,
+    /// truncated or complete UTF-8 sequences) in the 1-4 bytes before their
+    /// newline, readers followed by ASCII data lines
+    fn byte_script(&mut self) -> Vec<u8> {
+        const TAILS: [&[u8]; 14] = [
+            b"\xE9", b"\xE9a", b"\xE9ab", b"\xC3", b"\xE2\x82", b"\xF0\x9F\x98", b"\xF0", b"\x80",
+            b"\xC3\xA9", b"\xE2\x82\xAC", b"\xF0\x9F\x98\x80", b"\xFF", b"\xE2\x82x", b"\xC3\xA9\xE9",
+        ];
+        let mut out: Vec<u8> = vec![];
+        let n = 2 + self.r.below(4);
+        for _ in 0..n {
+            let k = self.k();
+            let v = self.var();
+            let tail = *self.r.pick(&TAILS);
+            let mut line: Vec<u8> = match self.r.below(7) {
+                0 => format!("read -r {v} # caf").into_bytes(),
+                1 => format!("read {v} # ").into_bytes(),
+                2 => format!("probe {k} # x").into_bytes(),
+                3 => format!("probe {k} caf").into_bytes(),
+                4 => format!("{{ read -r {v}; }} # ").into_bytes(),
+                5 => "# ".to_string().into_bytes(),
+                _ => format!("probe '{k} ").into_bytes(),
+            };
+            let quoted = line.starts_with(b"probe '");
+            line.extend_from_slice(tail);
+            if quoted {
+                line.push(b'\'');
+            }
+            let reads = line.starts_with(b"read") || line.starts_with(b"{ read");
+            out.extend_from_slice(&line);
+            out.push(b'\n');
+            if reads {
+                out.extend_from_slice(format!("data {k}\nshow {v}\n").as_bytes());
+            }
+            if self.r.chance(1, 3) {
+                out.extend_from_slice(format!("probe {k}z\n").as_bytes());
+            }
+        }
+        match self.r.below(3) {
+            0 => {
+                out.extend_from_slice(b"slurp\nrest \xE9\xC3\n\xE2\x82");
+            }
+            1 => out.extend_from_slice(b"probe end"),
+            _ => {}
+        }
+        out
+    }
+    /// `read -d X` with and without -r on the shared input, data with
+    /// delimiters, backslashes and continuation lines, then commands that see
+    /// what is left
+    fn delim_script(&mut self) -> String {
+        let mut out = String::new();
+        let n = 1 + self.r.below(3);
+        for _ in 0..n {
+            let k = self.k();
+            let v = self.var();
+            let d = *self.r.pick(&[":", "x", "';'", "'\\'", "'\\'", "' '", "e", "b"]);
+            let raw = if self.r.chance(1, 2) { "-r " } else { "" };
+            match self.r.below(4) {
+                0 => out.push_str(&format!("read {raw}-d {d} {v}\n")),
+                1 => out.push_str(&format!("read -d {d} {raw}{v}; show {v}\n")),
+                2 => out.push_str(&format!("{{\nread {raw}-d {d} {v}\n}}\n")),
+                _ => out.push_str(&format!("read {raw}{v}\n")),
+            }
+            // data: a few short lines over an alphabet rich in delimiters and backslashes
+            let len = 2 + self.r.below(14);
+            for _ in 0..len {
+                let c = *self.r.pick(&['a', 'b', 'x', 'e', ':', ';', '\\', '\\', ' ', '\n', 'a', ':']);
+                out.push(c);
+            }
+            out.push('\n');
+            out.push_str(&format!("show {v}\nprobe {k}\n"));
+        }
+        if self.r.chance(1, 2) {
+            out.push_str("slurp\nleft:over\\\n");
+        }
+        out
+    }
+    /// an alias whose value has several lines: the lines come out of the
+    /// lexer's pending buffer; the first changes what the later ones mean
+    fn multiline_alias_script(&mut self) -> String {
+        let mut out = String::new();
+        let k = self.k();
+        if self.r.chance(1, 3) {
+            out.push_str(self.r.pick(&["set -o portable\n", "alias a1=probe\n", "alias a1=nosuchq\n"]));
+        }
+        let first = *self.r.pick(&[
+            "set -o portable", "set +o portable", "alias a1=probe", "unalias a1", "alias a1=nosuchq", "probe f",
+            "set -o portable; probe f",
+        ]);
+        let nlines = 1 + self.r.below(3);
+        let mut value = first.to_string();
+        for j in 0..nlines {
+            let later = match self.r.below(8) {
+                0 => format!("((probe {k}{j}); (probe {k}{j}b))"),
+                1 => format!("case x in x) probe {k}{j} ;| esac"),
+                2 => format!("a1 {k}{j}"),
+                3 => format!("read -r v1"),
+                4 => format!("probe {k}{j}"),
+                5 => "set +o portable".to_string(),
+                6 => "alias a1=probe".to_string(),
+                _ => format!("a1 {k}{j}; ((probe {k}{j}c))"),
+            };
+            value.push('\n');
+            value.push_str(&later);
+        }
+        out.push_str(&format!("alias two=\"{value}\"\n"));
+        match self.r.below(4) {
+            0 => out.push_str("two\n"),
+            1 => out.push_str("two; probe same-line\n"),
+            2 => out.push_str("probe before; two\n"),
+            _ => out.push_str("two\ntwo\n"),
+        }
+        out.push_str(&format!("data {k}\nshow v1\na1 {k}z\n((probe {k}y))\nprobe {k}end\n"));
+        out
+    }
     fn script_lines(&mut self, max_items: usize) -> Vec<String> {
         let mut out = vec![];
         let n = 1 + self.r.below(max_items);
@@ -1080,7 +1390,23 @@ fn standard_feeds(r: &mut Rng, script: &str, extra_fifo: usize) -> Vec<Feed> {
 const BAD_LINES: [&str; 9] =
     [")", "fi", "probe z ;;", "}", "probe \"open", "hdoc <<E", "if true; then", "{ probe z", "probe z | | probe y"];
 
-const CORPUS: [(&str, &str); 24] = [
+const CORPUS_BYTES: [&[u8]; 4] = [
+    b"read x # caf\xE9\ndata line\nshow x\nprobe after\n",
+    b"read -r v1 # \xE2\x82\nd1\nshow v1\nprobe \xF0\x9F\nprobe z # \xC3\xA9\nslurp\n\xE9\xE9\n",
+    b"probe 'a\xE9'\n# \xF0\x9F\x98\x80\nread v1\nnext\nshow v1",
+    b"{ read -r v2; } # \xC3\nX\nshow v2 # \xFF\n",
+];
+
+const CORPUS: [(&str, &str); 33] = [
+    ("read -d : v1\nab:ex\nshow v1\nprobe a\n", ""),
+    ("read -d '\\' v1\nab\\ex\nshow v1\n", ""),
+    ("read -r -d '\\' v1\nab\\ex\nshow v1\n", ""),
+    ("read -d x v1\na\\xb\\\ncxd\nshow v1\nslurp\nrest\n", ""),
+    ("read -r -d x v1; show v1\na\\xb\nshow v1\n", "in:put\n"),
+    ("alias two=\"set -o portable\n((probe k))\"\ntwo\nprobe after\n", ""),
+    ("set -o portable\nalias two=\"set +o portable\n((probe k))\nread -r v1\"\ntwo\ndata\nshow v1\n", "dd\n"),
+    ("alias two=\"alias a1=probe\na1 k\nunalias a1\na1 l\"\ntwo; probe m\n", ""),
+    ("alias two=\"probe a\nread -r v1\"\ntwo\ndata line\nshow v1\nprobe z", ""),
     ("probe a\n", ""),
     ("probe a", ""),
     ("", ""),
@@ -1111,7 +1437,7 @@ fn main() {
     let args = Args::parse();
     if let Some(s) = args.opt("script") {
         let s = s.replace("\\n", "\n");
-        println!("{:#?}", build_table(&s).map(|t| (t.states, t.entries)));
+        println!("{:?}", build_table(s.as_bytes()).map(|t| (t.states, t.entries)));
         for feed in [Feed::File, Feed::Fifo(vec![1; s.len()], true), Feed::Fifo(vec![3, 5, 1000], false), Feed::CmdString, Feed::ScriptFile] {
             let o = run(s.as_bytes(), &feed, b"data1\ndata2\n");
             println!("{:?}\n  {:?}", feed, o);
@@ -1119,9 +1445,17 @@ fn main() {
         return;
     }
     let mut rng = Rng::new(args.seed);
-    let mut w = CasesWriter::new(&args, "Yv.C18.Run", 40);
+    let mut w = CasesWriter::new(&args, "Yv.C18.Run", 25);
 
     // 1. corpus
+    for s in CORPUS_BYTES.iter() {
+        let mut r = rng.fork(2);
+        let feeds = standard_feeds(&mut r, &"x".repeat(s.len()), 2);
+        if !emit_bytes(&mut w, s, "d1\nd2\n", &feeds, "corpus", &[]) {
+            eprintln!("corpus script outside the model: {s:?}");
+            w.push("(mkCase [0%N] nil nil nil nil)", "{\"stream\":\"corpus\",\"outside_model\":true}", &[], None);
+        }
+    }
     for (s, d) in CORPUS.iter() {
         let mut r = rng.fork(1);
         let feeds = standard_feeds(&mut r, s, 2);
@@ -1161,6 +1495,51 @@ fn main() {
             Feed::ScriptFile,
         ];
         emit(&mut w, &script, "d1\nd2\n", &feeds, "aliases-and-options", &[]);
+    }
+
+    // 2c. bytes that are not UTF-8 / multi-byte characters next to the newline
+    let n_bytes = args.scale(70, 600);
+    for i in 0..n_bytes {
+        let mut r = rng.fork(700_000 + i as u64);
+        let script = Gen { r: &mut r, key: 0 }.byte_script();
+        let n = script.len();
+        let feeds = vec![
+            Feed::File,
+            Feed::Fifo(vec![1; n.min(200)], true),
+            Feed::Fifo(random_sizes(&mut r, n), true),
+            Feed::CmdString,
+            Feed::ScriptFile,
+        ];
+        emit_bytes(&mut w, &script, "d1\nd2\n", &feeds, "non-utf8-bytes", &[]);
+    }
+
+    // 2d. read -d DELIM on the shared input
+    let n_delim = args.scale(70, 600);
+    for i in 0..n_delim {
+        let mut r = rng.fork(800_000 + i as u64);
+        let script = Gen { r: &mut r, key: 0 }.delim_script();
+        let n = script.len();
+        let feeds = vec![
+            Feed::File,
+            Feed::Fifo(vec![1; n.min(200)], true),
+            Feed::Fifo(random_sizes(&mut r, n), r.chance(3, 4)),
+            Feed::CmdString,
+        ];
+        emit(&mut w, &script, "a:b\\:c\\\nd e\n", &feeds, "read-with-delimiter", &[]);
+    }
+
+    // 2e. multi-line aliases: commands parsed out of the lexer's pending buffer
+    let n_ml = args.scale(60, 500);
+    for i in 0..n_ml {
+        let mut r = rng.fork(900_000 + i as u64);
+        let script = Gen { r: &mut r, key: 0 }.multiline_alias_script();
+        let feeds = vec![
+            Feed::File,
+            Feed::Fifo(random_sizes(&mut r, script.len()), true),
+            Feed::CmdString,
+            Feed::ScriptFile,
+        ];
+        emit(&mut w, &script, "d1\nd2\n", &feeds, "multi-line-alias", &[]);
     }
 
     // 3. a syntax error planted at every later line of a script
